@@ -1,0 +1,18 @@
+//go:build verif
+// +build verif
+
+package executor
+
+import "math/big"
+
+// VerifC18DecodeContractData runs the contract executor's decodeContractData on
+// the Data field of a transaction (as produced by eth_tx.ConvertTx) and returns
+// what the executor will hand to the EVM. InitExecutors must have run (logger).
+func VerifC18DecodeContractData(txData string) (gasLimit uint64, transferValue *big.Int, input []byte, errMsg string) {
+	ce := &contractExecutor{logger: logger}
+	raw, msg := ce.decodeContractData(txData)
+	if raw == nil {
+		return 0, nil, nil, msg
+	}
+	return raw.GasLimit, raw.TransferValue, raw.AbiData, msg
+}
